@@ -352,6 +352,40 @@ pub fn run(r: &Report) {
         near.push((addr::encode_segwit(blech, 0, &bytes, Variant::Bech32), "blech-hrp-with-bech-checksum"));
         near.push((addr::encode_segwit("bc", 0, &prog, Variant::Bech32), "foreign-hrp"));
         near.push((addr::encode_segwit(&bech.to_uppercase(), 0, &prog, Variant::Bech32), "uppercase-hrp-lowercase-data"));
+        // upper-case HRP in front of a lower-case data part: checksum computed over the lower-case HRP (as a decoder
+        // that lower-cases would) and over the upper-case one
+        for (hrp, payload, var) in [(bech, prog.clone(), Variant::Bech32), (blech, bytes.clone(), Variant::Blech32)] {
+            let lower = addr::encode_segwit(hrp, 0, &payload, var);
+            let mixed = format!("{}{}", hrp.to_uppercase(), &lower[hrp.len()..]);
+            near.push((mixed, "uppercase-hrp-lowercase-data"));
+            near.push((addr::encode_segwit(&hrp.to_uppercase(), 0, &payload, var), "uppercase-hrp-lowercase-data"));
+            // truncations and extensions of the HRP, with a checksum that is valid for that HRP
+            let mut variants: Vec<String> = Vec::new();
+            for cut in 1..hrp.len() {
+                variants.push(hrp[..cut].to_string());
+                variants.push(hrp[cut..].to_string());
+            }
+            for extra in ["x", "q", "1", "2"] {
+                variants.push(format!("{}{}", hrp, extra));
+                variants.push(format!("{}{}", extra, hrp));
+            }
+            for h in variants {
+                // skip variants that are themselves a built-in HRP of this or another network
+                if NET_CONSTS.iter().any(|c| c.3 == h || c.4 == h) {
+                    continue;
+                }
+                for ver in [0u8, 1] {
+                    let v = match (var.blinded(), ver) {
+                        (false, 0) => Variant::Bech32,
+                        (false, _) => Variant::Bech32m,
+                        (true, 0) => Variant::Blech32,
+                        (true, _) => Variant::Blech32m,
+                    };
+                    let pl = if ver == 0 { payload.clone() } else { let mut x = payload.clone(); x.extend_from_slice(&[7u8; 12]); x };
+                    near.push((addr::encode_segwit(&h, ver, &pl, v), "hrp-truncated-or-extended"));
+                }
+            }
+        }
         // padding: non-zero padding bits, and an extra zero group
         for (ver, plen, var) in [(0u8, 20usize, Variant::Bech32), (1, 32, Variant::Bech32m), (1, 3, Variant::Bech32m)] {
             let prog = gen::blob(plen, 5);
